@@ -20,6 +20,11 @@ ASSUMPTIONS = ["eps is drawn at relative distance >= 1% from every critical cove
                "critical value are indeterminate (solver band, as C10)", "cones pointed and solid; rows need not be unit vectors (hypervolume component: unit rows, K<=3)"]
 
 
+# is_covered solves a conic programme with default solver settings: feasibility is accepted at an absolute tolerance of about
+# 1e-8, amplified by the conditioning of very acute cones (x60 for a 1-degree cone).  Below this no verdict is demanded.
+SOLVER_ABS = 1e-6
+
+
 def _W(spec):
     order = gen.make_order(spec)
     return order, np.asarray(order.ordering_cone.W, float)
@@ -136,7 +141,7 @@ def check_cover(case):
             e = scale * 0.1
         else:
             e = crit[eps[1] % len(crit)] * eps[2]
-    band = 1e-3 * max(scale, e) + 1e-9
+    band = 1e-3 * max(scale, e) + SOLVER_ABS  # relative accuracy of the SCS fallback (as C10) + absolute solver tolerance
     near = np.abs(dist - e) <= np.maximum(band, 0.009 * dist)
     nt = False
     exp = dist <= e
@@ -214,7 +219,7 @@ def check_f1(case):
     labels.append("pred:" + pred_kind)
 
     def f1_ref(e):
-        band = 1e-3 * max(scale, e) + 1e-9
+        band = 1e-3 * max(scale, e) + SOLVER_ABS
         missed = [i for i in true if i not in pred]
         if missed and pred and (np.abs(dist[np.ix_(missed, pred)] - e) <= np.maximum(band, 0.009 * dist[np.ix_(missed, pred)])).any():
             return None
